@@ -35,3 +35,7 @@ def fill(claim, not_yet):
 		'Sentences following every alternative of py_gram.lark are parsed by SyntaxParser(py_rules()) and by ast.parse, both trees are mapped into one neutral form and compared; mutated sentences must be accepted with a matching tree or rejected with Errors.Syntax whose summary names a token of the input, an existing line and a caret under that token. Rule names seen in the produced trees are reported as coverage.',
 		'Trusted: CPython ast, vf/oracle/pycanon.py (two small mappings). The engine is slow on deep sentences, so depth is bounded (<= 4) and a 400k matcher-call budget marks the rest inconclusive.',
 		'DESIGN.md §4 C11')
+	claim('C02', 'exploration', 'runtime monitoring: differential parsing — the real typed node tree (walked through the nodes\' declared properties) vs CPython ast, both mapped into one neutral tree language including node classification',
+		'Generated modules over the Python-compatible productions of data/grammar.lark and every repository module both parsers accept are loaded through the real Entrypoints/NodeResolver; grouping, chaining, call arguments, slices, literals, comprehensions, statement nesting, parameters/defaults/annotations, decorators, bases and the classification of defs and of binding vs referencing occurrences are compared with what ast.parse says.',
+		'Trusted: CPython ast, vf/oracle/nodecanon.py. One open finding (chained assignment) is kept out of the random workload by a generator switch and exercised by its committed witness on every run.',
+		'DESIGN.md §4 C02')
